@@ -450,6 +450,21 @@ def scoped_cases(rng, count, idx0=0):
     return cases
 
 
+
+def context_cases(rng, count, idx0=0):
+    """(f) one sub-structure used plain and inside operator spans within ONE template (Families.context_forms)"""
+    v2, differing = version_pair()
+    fam = Families(rng, v2 or 33, differing)
+    cases = []
+    if not fam.seqs:
+        return cases
+    for i in range(count):
+        k, forms = fam.context_forms()
+        f = rng.choice(forms[2:] if rng.random() < 0.8 else forms)
+        pre, suf = fam.wrap()
+        cases.append(P.Case([pre, f, suf], [], rng.randint(1, 3), rng.random() < 0.4, 4, idx0 + i))
+    return cases
+
 def marker_parts(tg, rng):
     """[operators in force] back-referenced elements, bitmap, marker operators [operators cancelled]"""
     n_back = rng.randint(1, 4)
@@ -628,6 +643,10 @@ def run(ctx):
     rng = ctx.rng('scoped')
     jobs += chunked(None, 'scoped', scoped_cases(rng, 160 if quick else 3000), rng, size)
 
+    # (f) one sub-structure (Table D sequence, replication of it, its members) plain and inside operator spans
+    rng = ctx.rng('context')
+    jobs += chunked(None, 'context', context_cases(rng, 120 if quick else 2500), rng, size)
+
     # (c) Table D rows
     rng = ctx.rng('tabled')
     rows, total = tabled_rows(rng, ctx.tier)
@@ -771,7 +790,7 @@ class Families(object):
     could overlook.  Every member is a (ids, versions) pair; elements exist in both table versions."""
 
     KINDS = ('rep-body', 'rep-factor', 'rep-nested', 'fixed-vs-delayed', 'version', 'prefix', 'order', 'multiset',
-             'seq-vs-expansion', 'operand', 'rep-operator')
+             'seq-vs-expansion', 'operand', 'rep-operator', 'context')
 
     def __init__(self, rng, v2, differing):
         self.rng, self.v2, self.differing = rng, v2, differing
@@ -964,6 +983,66 @@ class Families(object):
         delayed = r.random() < 0.5
         cnt = r.randint(1, 3)
         return self.both_versions([pre + rep_of(b, cnt, 31001 if delayed else None) + suf for b in self.pick(must, bodies, 0, 1)])
+
+
+    def context_forms(self):
+        """One sub-structure S (a Table D sequence of elements, that sequence under a fixed / delayed replication, or its
+        written-out members) and one operator context K that changes what is recorded for a member of S (201 202 207 width
+        / scale / reference, 203: a new reference value that stays in force after 203255 until 203000, 204 associated
+        field, 208 string length, 221 data not present): the templates
+            S | K( S ) | S K( S ) | K( S ) S | S K( S ) S | K( S ) K'( S )
+        A compiler (or a cache inside it) that identifies what it records for S by S alone - not by the registers in force
+        where S is used - is right on the first and wrong on the others, within one template or across the messages of
+        one coder (seeded change C08-7)."""
+        r = self.rng
+        s = r.choice(self.seqs)
+        members = [int(m) for m in self.d[s][1]]
+        nums = [m for m in members if m in set(self.numeric)]
+        strs = [m for m in members if m in set(self.string)]
+        kinds = ['201', '202', '207', '204', '221'] + (['203'] * 4 if nums else []) + (['208'] * 2 if strs else [])
+        form = r.choice(['seq', 'seq', 'seq', 'fixed', 'delayed', 'members'])
+        if form == 'seq':
+            sub, units = [s], 1 + len(members)
+        elif form == 'fixed':
+            sub, units = rep_of([s], 2), None
+        elif form == 'delayed':
+            sub, units = rep_of([s], factor=31001), None
+        else:
+            sub, units = list(members), len(members)
+
+        def ctx(k):
+            if k == '201':
+                return [201000 + r.choice([129, 130, 132])], [201000]
+            if k == '202':
+                return [202000 + r.choice([129, 130])], [202000]
+            if k == '207':
+                return [207000 + r.randint(1, 2)], [207000]
+            if k == '208':
+                return [208000 + r.randint(1, 5)], [208000]
+            if k == '204':
+                return [204000 + r.randint(1, 6), 31021], [204000]
+            if k == '221':
+                if units is None or units > 255:
+                    return ctx('201')
+                return [221000 + units], []
+            els = sorted(set(r.sample(nums, min(len(nums), r.randint(1, 2)))))
+            return [203000 + r.randint(6, 14)] + els + [203255], [203000]
+        k1 = r.choice(kinds)
+        o1, c1 = ctx(k1)
+        o2, c2 = ctx(r.choice(kinds))
+        forms = [sub, o1 + sub + c1, sub + o1 + sub + c1, o1 + sub + c1 + sub, sub + o1 + sub + c1 + sub,
+                 o1 + sub + c1 + o2 + sub + c2]
+        return k1, forms
+
+    def context(self):
+        """see context_forms: the same sub-structure plain and inside operator spans, as separate templates of one family
+        (requested one after the other on one coder) and inside one template"""
+        if not self.seqs:
+            return self.operand()
+        pre, suf = self.wrap()
+        _, forms = self.context_forms()
+        must = self.rng.choice([[forms[0], forms[1]], [forms[1], forms[0]], [forms[2]], [forms[0], forms[4]], [forms[3], forms[1]]])
+        return self.both_versions([pre + f + suf for f in self.pick(must, forms, 1, 3)])
 
     def make(self, kind):
         return getattr(self, kind.replace('-', '_'))()
